@@ -14,6 +14,9 @@ pub assume_specification<T: Copy>[ Option::<&T>::copied ](o: Option<&T>) -> (r: 
 pub assume_specification<T: Default>[ core::mem::take::<T> ](dest: &mut T) -> (r: T)
     ensures r == *old(dest);
 
+pub assume_specification<'a>[ <String as PartialEq<&'a str>>::eq ](a: &String, b: &&str) -> (r: bool) ensures r == (a@ == (*b)@);
+pub assume_specification[ <String as PartialEq<str>>::eq ](a: &String, b: &str) -> (r: bool) ensures r == (a@ == b@);
+
 /// R12: by-value iteration over a Vec, expressed as has_next / next_val
 /// (`for x in v` == `let mut it = v.into_iter(); while let Some(x) = it.next()`).
 #[verifier::external_body]
